@@ -117,7 +117,7 @@ class Hist(Stream):
         self.check_fn = 'check_iso_shared' if kind == 'shared' else 'check_iso_disjoint'
         self.rule = ('%s store: random interleaved histories (depth 8-30) over 3 graph ids x 5 node ids incl. imports '
                      'of graphs whose keys collide with stored internal ids, re-import, delete+re-import, clone, '
-                     'malformed imports (no merge_nodes: not in C04s quantifier), plus all histories of depth<=D over a 9-operation alphabet; '
+                     'malformed imports; on the shared store a fifth of the histories start from a pre-state with cross-graph links left by merge_nodes and then clone / delete / import / match the graphs on either side; plus all histories of depth<=D over a 9-operation alphabet; '
                      'non-trivial = at least two graph ids hold nodes at some step and >=3 state-changing steps; '
                      'distinct by (history, observations)' % kind)
 
@@ -136,6 +136,11 @@ class Hist(Stream):
         out = []
         for i in range(n):
             r = rng.random()
+            if self.kind == 'shared' and rng.random() < 0.2:
+                # a store that CONTAINS cross-graph links (left by merge_nodes) as pre-state, then extract / clone /
+                # delete / import on either side: the merge steps themselves are not compared for isolation
+                out.append(sc.cross_link_scenario(rng, extra=rng.randrange(3, 12)))
+                continue
             depth = rng.choice([8, 12, 16, 20, 25, 30])
             # merge_nodes is not among the operations C04 quantifies over (C05 covers it)
             out.append(sc.gen_history(rng, depth, identity_rate=0.03, weights=self.W))
